@@ -667,7 +667,7 @@ _ADDED = {
     "C12": "Also: bare Rust scalars (i8..u32, i64, f32, f64, bool, &str, String, KString, KStringCow), Scalar and ScalarCow as views; the ArrayView / ObjectView interfaces (size, values, keys, iter, get, contains_key, first, last) of every container view; integer texts read into u64 / usize / i64 / u32 / Option<u64> / Vec<u64> (exact or rejected); a 'Rust shapes' family (narrow integers, f32, char, newtype / tuple / unit structs, tuples, arrays, unit enum variants, integer-keyed maps, narrowing rejections).",
     "C13": "The script pool includes characters whose upper-case form is wider or narrower in UTF-8 (U+0149, dotless i, long s, the fi ligature, U+0390, U+01C6).",
     "C16": "strip_html additionally over all strings of length <= 7 (quick 6) over {<, >, double quote, single quote, a, =, space, LF}.",
-    "C18": "The empty path is observed too (names nothing under every layering).",
+    "C18": "The empty path is observed too (names nothing under every layering). Beyond the exhaustive lengths a seeded sample of sequences of length 5-7 (thorough 6-8) is run; the assignable values coincide with what some pushed maps hold for one name each (assigning what is already visible) and differ for the other name.",
     "C19": "One scenario in six gives a partial invisible characters / white space at its edges; one in four is additionally probed through a monitor tag that asks the runtime's partial store contains / names / try_get / get for present, broken, missing and '.liquid'-suffixed names under every policy (answers fixed by the source; what try_get hands out renders like include).",
     "C20": "All shared templates also apply strip_html, date, split|sort|join|upcase|truncate, escape_once and replace|url_encode to per-data inputs long enough to be worth caching; every 50th round is a hammer round (one small hot template, four data objects, 8 threads x 1500 calls).",
 }
@@ -679,6 +679,10 @@ _ADDED5 = {
     "C03": "Raw bodies also hold closing-tag look-alikes that carry arguments ({% endraw x %}, {%- endraw , -%}: body text) and white space the grammar treats as text (U+2003, U+3000, U+2028, U+0085, FF, VT, U+FEFF).",
     "C07": "Array steps are also tried with fractional positions (0.5, 1.5, -0.5, len-0.1 as numbers and '1.5' / '0.9' as strings): they name no element, so the output tag must fail.",
     "C08": "When a partial is named through a variable (one tag in three), half of the include / render tags also pass an argument of that very name holding another partial's name (arguments are visible only inside the partial: the tag still resolves the caller's value).",
+    "C05": "In the break/continue family the inner loop's else branch (it runs when the inner loop selects nothing) also raises a break or a continue: the interrupt belongs to the enclosing loop.",
+    "C09": "Soak histories: every failing (template, data) pair 130 times in a row on one parser, then every pair once (state that creeps by one per failing render only shows after many of them).",
+    "C19": "Every other candidate name is asked of the store (contains / try_get / get / names) before its first use, so that under the lazy policy the optional lookup is the one that compiles it.",
+    "C02": "Every slugify mode is named literally (none / raw / default / pretty / ascii / latin / an unknown one) over the whole pool.",
     "C12": "The three serde entry points to_value / to_object / to_scalar are run on 80 Rust shapes (every scalar type, unit, unit / newtype / tuple structs, unit / newtype / tuple / struct enum variants, options, sequences, tuples, maps keyed by every scalar kind): whatever two of them accept they convert alike, an object for to_value is accepted by to_object, none panics, integer / char map keys arrive as their text.",
     "C20": "A parse failure is identified by its whole message; one round in five adds a template that does not parse (unknown filter / tag / block) and lets every thread start by parsing it, so the first failing parse on the shared parser is simultaneous; every 25th round is a cross round (two partials that include each other, never recursively, from inside the body of ifchanged / capture / for / tablerow / if / unless / case, entered from opposite ends by 8 threads x 300 calls: a block holding a lock while its body renders would deadlock).",
 }
